@@ -177,7 +177,7 @@ func recoverOnDisk(rec *recorder, sc *Scenario, root string, id uuid.UUID, tr, k
 	})
 	s.emit(0, func() ev {
 		return ev{"ev": "Config", "objs": pr.descs, "blocks": pr.blocks, "retries": sc.Shape.Retries, "cretries": sc.Shape.CRetries, "mode": "crash",
-			"tag": sc.Tag, "nplans": 1, "crashk": killedAt, "crashj": -1, "fn": sc.Fn, "killed": killed}
+			"tag": sc.Tag, "nplans": 1, "crashk": killedAt, "crashj": -1, "fn": sc.Fn, "killed": killed, "mshape": modelShape(sc.Shape)}
 	})
 	s.emit(0, func() ev {
 		return ev{"ev": "Crash", "snap": snapshot(pre, pr.nm), "reason": pre.Reason.String(), "k": killedAt, "j": -1, "base": "-", "old": false, "recovery": true, "ages": 0}
